@@ -304,6 +304,8 @@ type smAn struct {
 	decls                                                                 map[*types.Func]*ast.FuncDecl
 	inlMemo                                                               map[*types.Func]*ast.FuncDecl
 	hostTypes                                                             map[string]bool
+	knownFuncs                                                            map[string]bool
+	nfresh                                                                int
 }
 
 type smModel struct {
@@ -1272,6 +1274,34 @@ func (a *smAn) fork(key string, s *pst) []vs {
 
 func (a *smAn) atom(e ast.Expr, s *pst) []vs {
 	s = s.clone()
+	// a boolean constant (what a predicate helper walked in place answered)
+	if tv, ok := a.info.Types[e]; ok && tv.Value != nil && tv.Value.Kind() == constant.Bool {
+		return []vs{{s, constant.BoolVal(tv.Value)}}
+	}
+	if id, ok := e.(*ast.Ident); ok && (id.Name == "true" || id.Name == "false") && a.obj(id) == types.Universe.Lookup(id.Name) {
+		return []vs{{s, id.Name == "true"}}
+	}
+	// a predicate helper of the state machine: its body is walked and its answer evaluated
+	if call, ok := e.(*ast.CallExpr); ok {
+		if fd := a.inlineTarget(call, len(s.inl)); fd != nil {
+			if callee, _ := typeutil.Callee(a.info, call).(*types.Func); callee != nil {
+				sig := callee.Type().(*types.Signature)
+				if sig.Results().Len() == 1 && types.Identical(sig.Results().At(0).Type().Underlying(), types.Typ[types.Bool]) {
+					id := a.freshVar(types.Typ[types.Bool], call.Pos())
+					if out, ok := a.inlineCall(call, []ast.Expr{id}, token.DEFINE, s); ok {
+						var res []vs
+						for _, o := range out {
+							if o.done || o.brk != "" {
+								continue
+							}
+							res = append(res, a.evalBool(id, o)...)
+						}
+						return res
+					}
+				}
+			}
+		}
+	}
 	// context atoms
 	if a.isIdent(e, a.ovObj) {
 		return []vs{{s, a.ctx.Override != ""}}
@@ -1537,6 +1567,17 @@ func (a *smAn) stmt(st ast.Stmt, s *pst) []*pst {
 				return out
 			}
 		}
+		if ne, pre, ok := a.hoist(x.X, s); ok {
+			var out []*pst
+			for _, p0 := range pre {
+				if p0.done || p0.brk != "" {
+					out = append(out, p0)
+					continue
+				}
+				out = append(out, a.stmt(&ast.ExprStmt{X: ne}, p0)...)
+			}
+			return out
+		}
 		n := s.clone()
 		a.scan(x.X, n)
 		return []*pst{n}
@@ -1546,6 +1587,21 @@ func (a *smAn) stmt(st ast.Stmt, s *pst) []*pst {
 				if out, ok := a.inlineCall(call, x.Lhs, x.Tok, s); ok {
 					return out
 				}
+			}
+		}
+		for i, r := range x.Rhs {
+			if ne, pre, ok := a.hoist(r, s); ok {
+				nr := append([]ast.Expr(nil), x.Rhs...)
+				nr[i] = ne
+				var out []*pst
+				for _, p0 := range pre {
+					if p0.done || p0.brk != "" {
+						out = append(out, p0)
+						continue
+					}
+					out = append(out, a.stmt(&ast.AssignStmt{Lhs: x.Lhs, TokPos: x.TokPos, Tok: x.Tok, Rhs: nr}, p0)...)
+				}
+				return out
 			}
 		}
 		n := s.clone()
